@@ -160,6 +160,7 @@ def gen_cases(rec, rng, tier):
         yield {'cls': 'unit_cycles', 'ref': cfgg.unit_cycle_grammar(rng), 'n': 3, 'via_chomsky': True}
         yield {'cls': 'redundant_cnf', 'ref': cfgg.redundant_cnf(rng), 'n': 5}
         yield {'cls': 'ambiguous_name_concatenation', 'ref': cfgg.ambiguous_concat_cnf(rng), 'n': 3}
+        yield {'cls': 'ambiguous_long_rule_tails', 'ref': cfgg.ambiguous_long_rules(rng), 'n': 4}
     for _ in range(300 if thorough else 30):
         nv = rng.randint(1, 6)
         RG = cfgg.random_cnf(rng, nv, rng.randint(0, 8), nt=rng.randint(1, 3))
